@@ -1,32 +1,58 @@
 (* Replays lcslistrace lines on the extracted model (LcsModel, LisModel) and evaluates the
    property itself on the implementation's output with the extracted reference definitions
-   (LcsSpec, LisSpec): validity by direct checks, optimality against the reference optimum. *)
+   (LcsSpec, LisSpec): validity by direct checks, optimality against the reference optimum.
+   [spec] never calls the model (lcs_func / lis_func / lnds_func), only the reference functions
+   subseq_b, lcs_len_ref, ordered_b, lis_len_ref and direct definitions. *)
 
 let key e = e / 100
 
 let eq_of = function
   | "e" -> (fun (a : int) b -> a = b)
-  | _ -> (fun a b -> key a = key b)
+  | "k" -> (fun a b -> key a = key b)
+  | "c" -> (fun a b -> key a / 2 = key b / 2)
+  | "m" -> (fun a b -> key a mod 2 = key b mod 2)
+  | "o" -> (fun a b -> key a <= key b)
+  | "p" -> (fun a b -> key a = key b && key a <> 2)
+  | m -> failwith ("bad eq mode " ^ m)
+
+(* is the test an equivalence (then the symmetric statement of the property applies too)? *)
+let is_equivalence = function "e" | "k" | "c" | "m" -> true | _ -> false
 
 let cmp_of mode =
   let c = match mode with
     | "n" -> (fun (a : int) b -> compare a b)
     | "k" -> (fun a b -> compare (key a) (key b))
     | "r" -> (fun a b -> compare (key b) (key a))
-    | _ -> (fun a b -> key a - key b) in
+    | "d" -> (fun a b -> key a - key b)
+    | "t" -> (fun a b -> 3 * (key a - key b))
+    | "q" -> (fun a b -> 7 * (key b - key a))
+    | "x" -> (fun a b -> if key a < key b then min_int + 1 else if key a > key b then max_int else 0)
+    | "c" -> (fun a b -> key a / 2 - key b / 2)
+    | "m" -> (fun a b -> key a mod 3 - key b mod 3)
+    | m -> failwith ("bad cmp mode " ^ m) in
   fun a b -> z_of_int (c a b)
+
+(* optional window field w<pre>,<spare> *)
+let spare_of = function
+  | [] -> 0
+  | w :: _ when String.length w > 1 && w.[0] = 'w' ->
+    (match ints_of (String.sub w 1 (String.length w - 1)) with [_; sp] -> sp | _ -> 0)
+  | _ -> 0
 
 let eval inp =
   match words inp with
-  | ["L"; mode; a; b] ->
+  | "L" :: mode :: a :: b :: _ ->
     let a = ints_of a and b = ints_of b in
     (match M.lcs_func (eq_of mode) a b with
      | Some s -> (if M.lcs_is_nil a b then "z " else "s ") ^ str_ints s ^ " m0 a0"
      | None -> "NONE")
-  | [("I" | "N") as f; mode; vs] ->
+  | (("I" | "N") as f) :: mode :: vs :: w ->
     let vs = ints_of vs in
     let r = if f = "I" then M.lis_func (cmp_of mode) vs else M.lnds_func (cmp_of mode) vs in
-    (match r with Some s -> str_ints s ^ " m0 a0" | None -> "NONE")
+    (* on an empty input LIS/LNDS return the input slice itself: overwriting the result up to its
+       capacity reaches the spare capacity of the input window *)
+    let alias = if vs = [] && spare_of w > 0 then " a1" else " a0" in
+    (match r with Some s -> str_ints s ^ " m0" ^ alias | None -> "NONE")
   | _ -> "?"
 
 (* exact subsequence: greedy on whole elements *)
@@ -39,22 +65,42 @@ let rec exact_subseq s l =
 let spec prop inp out =
   if prop <> "C12" then None else
   match words inp with
-  | ["L"; mode; a; b] ->
+  | "L" :: mode :: a :: b :: _ ->
     let a = ints_of a and b = ints_of b in
     (match words out with
      | [_; s; m; _al] ->
        let s = ints_of s in
        let eq = eq_of mode in
-       if m <> "m0" then Some "LCS modified an input slice"
-       else if not (M.subseq_b eq s a) then Some "result is not a subsequence of the first argument"
-       else if not (M.subseq_b eq s b) then Some "result is not a subsequence of the second argument"
-       else if not (exact_subseq s a || exact_subseq s b) then Some "result elements are taken from neither argument"
-       else
-         let opt = int_of_nat (M.lcs_len_ref eq a b) in
-         if List.length s <> opt then Some (Printf.sprintf "length %d, reference optimum %d" (List.length s) opt)
-         else None
+       if m <> "m0" then Some "LCS modified an input slice (or a cell of its backing array)"
+       else if is_equivalence mode then begin
+         (* the property as stated: a common subsequence (up to eq) of both arguments, elements
+            taken from one of them, of the reference optimum length *)
+         if not (M.subseq_b eq s a) then Some "result is not a subsequence of the first argument"
+         else if not (M.subseq_b eq s b) then Some "result is not a subsequence of the second argument"
+         else if not (exact_subseq s a || exact_subseq s b) then Some "result elements are taken from neither argument"
+         else
+           let opt = int_of_nat (M.lcs_len_ref eq a b) in
+           if List.length s <> opt then Some (Printf.sprintf "length %d, reference optimum %d" (List.length s) opt)
+           else None
+       end else begin
+         (* a test without the laws of an equivalence: the code works on (xs, ys) = the shorter
+            input first and calls the test as eq x y; the result must be an element-identical
+            subsequence of xs that matches a subsequence of ys, of the reference optimum length for
+            that orientation (either orientation is accepted when the lengths are equal) *)
+         let oriented xs ys =
+           if not (exact_subseq s xs) then Some "result is not an element-identical subsequence of the shorter input"
+           else if not (M.subseq_b eq s ys) then Some "result does not match a subsequence of the longer input under eq(x, y)"
+           else
+             let opt = int_of_nat (M.lcs_len_ref eq xs ys) in
+             if List.length s <> opt then Some (Printf.sprintf "length %d, reference optimum %d for eq(shorter, longer)" (List.length s) opt)
+             else None in
+         let la = List.length a and lb = List.length b in
+         if lb < la then oriented b a
+         else if la < lb then oriented a b
+         else (match oriented a b with None -> None | Some r -> (match oriented b a with None -> None | Some _ -> Some r))
+       end
      | _ -> Some ("unexpected output " ^ out))
-  | [("I" | "N") as f; mode; vs] ->
+  | (("I" | "N") as f) :: mode :: vs :: _ ->
     let vs = ints_of vs in
     let strict = (f = "I") in
     let name = if strict then "LIS" else "LNDS" in
@@ -62,7 +108,7 @@ let spec prop inp out =
      | [s; m; _al] ->
        let s = ints_of s in
        let c = cmp_of mode in
-       if m <> "m0" then Some (name ^ " modified its input slice")
+       if m <> "m0" then Some (name ^ " modified its input slice (or a cell of its backing array)")
        else if not (exact_subseq s vs) then Some "result is not a subsequence of the input"
        else if not (M.ordered_b c strict s) then Some (if strict then "result is not strictly increasing" else "result is not non-decreasing")
        else
